@@ -2,6 +2,7 @@
 Every case = a valid, accepted base request (the twin) + one injected invalid construct of a class
 named in the property.  Monitor: D2 Err as pre-filter; verdict from rustc's diagnostics for the same
 input through the real proc macro (the case must draw an error produced by educe itself)."""
+import collections
 import copy
 import json
 
@@ -63,7 +64,7 @@ def m_dup_trait(rng, td):
 
 
 def m_dup_trait_field(rng, td):
-    v, f = pick_field(rng, td, lambda v, f: any(k in f.sem for k in ("Debug", "PartialEq", "Hash", "Clone")))
+    v, f = pick_field(rng, td, lambda v, f: any(k in f.sem for k in ("Debug", "PartialEq", "Hash", "Clone", "Default", "PartialOrd", "Ord")))
     if f is None:
         return None
     ents = [e for e in S.field_entries(td, f) if e[0] != "RAW" and e[0] != "Into"]
@@ -629,7 +630,65 @@ def text_cases():
     return out
 
 
-MUTATORS = [m_dup_trait, m_dup_trait_field, m_pair_both_on_field, m_variant_debug_twice, m_variant_trailing_foreign,
+def m_type_alias_dup(rng, td):
+    """the type-level Default expression under both of its names"""
+    if "Default" not in td.traits or td.params:
+        return None
+    vi = 0
+    if td.kind == "enum":
+        return None
+    e1 = S.emit_value(td, 0, tuple(0 for _ in td.variants[0].fields), side="7") if td.variants and td.variants[0].fields is not None else None
+    if e1 is None:
+        return None
+    a = rng.choice(["expression = dflt_twice()", "expression(dflt_twice())"])
+    b = rng.choice(["expr = dflt_twice()", "expr(dflt_twice())"])
+    two = [a, b]
+    rng.shuffle(two)
+    mid = rng.choice(["", "new, ", "new = true, "])
+    td.extra_items.append("pub fn dflt_twice() -> %s {\n    %s\n}\n" % (td.name, e1))
+    for _, f in td.all_fields():
+        f.sem.pop("Default", None)
+
+    def hook(lv, ob, lst):
+        if lv == "type":
+            return [("RAW", "Default(%s, %s%s)" % (two[0], mid, two[1])) if tt == "Default" else (tt, pp) for tt, pp in lst]
+        return lst
+    return "parameter-twice/type/expression+expr", hook
+
+
+def m_into_marker_unrequested(rng, td):
+    """a field marker for a target the type does not ask for, next to a marker that is asked for"""
+    if "Into" not in td.traits:
+        return None
+    asked = [e["ty"] for e in td.tsem["Into"]["targets"]]
+    cands = [(v, f) for v, f in td.all_fields() if f.sem.get("Into")]
+    if not cands:
+        return None
+    v, f = rng.choice(cands)
+    other = rng.choice([t for t in ("u32", "i64", "::std::string::String", "u128") if t not in asked])
+    raw = "Into(%s)" % other
+    if rng.random() < 0.5:
+        f.sem.setdefault("_raw", []).append(raw)
+    else:
+        f.sem.setdefault("_raw", []).insert(0, raw)
+    return "into-marker-not-requested/next-to-a-requested-one"
+
+
+def m_non_list_attribute(rng, td):
+    """`#[educe]` / `#[educe = ".."]` on a field or a variant (the type refuses these forms)"""
+    form = rng.choice(["#[educe]", "#[educe = \"Debug(ignore)\"]", "#[educe = \"PartialEq(ignore)\"]", "#[educe = true]"])
+    if td.kind == "enum" and td.variants and rng.random() < 0.4:
+        v = td.variants[placements(rng, td.variants)]
+        v.sem.setdefault("_foreign", []).append(form)
+        return "attribute-not-a-list/variant"
+    v, f = pick_field(rng, td)
+    if f is None:
+        return None
+    f.sem.setdefault("_foreign", []).append(form)
+    return "attribute-not-a-list/field"
+
+
+MUTATORS = [m_type_alias_dup, m_into_marker_unrequested, m_non_list_attribute, m_dup_trait, m_dup_trait_field, m_pair_both_on_field, m_variant_debug_twice, m_variant_trailing_foreign,
             m_bad_value_next_to_ignore, m_dup_param, m_dup_param, m_dup_rank, m_dup_into_type, m_dup_into_field,
             m_default_variant, m_deref_designation, m_into_designation, m_into_ambiguous, m_trait_not_educed, m_unknown_trait,
             m_wrong_param, m_wrong_param, m_name_on_positional, m_unit_variant, m_debug_nameless, m_alias_dup, m_alias_dup]
@@ -676,6 +735,19 @@ def union_cases(rng):
         td.tsem["Default"] = dict(td.tsem.get("Default", {}), expr="%s { %s: ::core::default::Default::default() }" % (td.name, f0.name))
         rng.choice(fs).sem["Default"] = rng.choice([{"flag": True}, {"expr": "::core::default::Default::default()"}])
         return "union-default-expression-and-field", td, None
+    if r < 0.80 and ts:
+        # `unsafe` has to be a parameter of its own: no comma after it is no list at all
+        t = rng.choice(ts)
+        if t != "Debug":
+            return None
+        td.tsem[t] = {}
+        form = rng.choice(["unsafe name = Zed", "unsafe name(false)", "unsafe unsafe", "unsafe; name = Zed"])
+
+        def hook(lv, ob, lst):
+            if lv == "type":
+                return [("RAW", "Debug(%s)" % form) if tt == t else (tt, pp) for tt, pp in lst]
+            return lst
+        return "union-unsafe-without-comma", td, hook
     if r < 0.85 and ts:
         # unsafe not first
         t = rng.choice(ts)
@@ -702,6 +774,9 @@ def union_cases(rng):
     return "union-field-attribute/%s" % t, td, None
 
 
+FORCE_MUTATOR = None
+
+
 def gen_case(seed, k):
     rng = rng_for(seed, PROP, "case", k)
     if rng.random() < 0.12:
@@ -721,7 +796,7 @@ def gen_case(seed, k):
             ts = list(alias[0])
         base = G.random_type(rng, ts, G.Opts(bounds=False, p_attr=0.2) if alias else G.Opts(bounds=False))
         td = copy.deepcopy(base)
-        m = rng.choice(MUTATORS) if alias is None else (lambda rng, td: m_alias_not_educed(rng, td, alias))
+        m = (FORCE_MUTATOR or MUTATORS[k % len(MUTATORS)]) if alias is None else (lambda rng, td: m_alias_not_educed(rng, td, alias))
         r = m(rng, td)
         if r is None:
             return None
@@ -757,6 +832,25 @@ def main(tier, seed, scale=1.0):
             cases.append(("c%d" % k,) + g)
         if k0 == 0:
             cases += [("t%d" % i, cls, TextTd, bad, twin, None) for i, (cls, bad, twin) in enumerate(text_cases())]
+            # every class is exercised a minimum number of times, whatever the shapes the seed happened to draw
+            global FORCE_MUTATOR
+            have = collections.Counter(c[1] for c in cases)
+            per_mut = collections.Counter()
+            kk = 10 ** 6
+            for m in MUTATORS:
+                got = 0
+                FORCE_MUTATOR = m
+                try:
+                    for _ in range(300):
+                        if got >= 12:
+                            break
+                        g = gen_case(seed, kk)
+                        kk += 1
+                        if g is not None and not g[0].startswith("union"):
+                            cases.append(("x%d" % kk,) + g)
+                            got += 1
+                finally:
+                    FORCE_MUTATOR = None
         feed = []
         for cid, cls, td, bad, twin, base in cases:
             feed.append((cid, bad.replace("::educe::Educe", "Educe")))
